@@ -20,3 +20,49 @@ Lemma anchors_ok :
   /\ anchor_dial_uses_caller_ctx = true /\ anchor_waiter_returns_dial_err = true
   /\ anchor_removeconn_by_key = true /\ anchor_close_outside_lock = true.
 Proof. repeat split; reflexivity. Qed.
+
+(* ---- non-vacuity examples for the theorems in Properties.v ---- *)
+From Gv Require Import C18.ProofsRouting C18.ProofsIsoPartial.
+Close Scope N_scope.
+
+Definition Kx : key := (1, 1, 0, 0)%N.
+(* coalesced dial; both subscribed on connection 0 (wire ids 0 -> sub 0, 1 -> sub 1) *)
+Definition tr_two : list action :=
+  [ASub 0 Kx; UpAccept 0; ASub 1 Kx; UpAck 0; APublish 0; AWaitDone 1; ABook 0; AInsert 0; AInsert 1; ASend 1; ASend 0].
+
+Example ex_routing :
+  exists s log, run (init false) (tr_two ++ [UpMsg 0 1 (KData 7); UpMsg 0 0 (KData 8); UpMsg 0 5000 (KData 1);
+                                              UpMsg 0 0 KComplete; ARLRemove 0; UpMsg 0 0 (KData 9); UpMsg 0 1 (KData 3)])
+                = Some (s, log)
+    /\ filter (fun e => match e with ODeliver _ _ => true | _ => false end) log
+       = [ODeliver 1 (KData 7); ODeliver 0 (KData 8); ODeliver 0 KComplete; ODeliver 1 (KData 3)].
+Proof. eexists. eexists. split; vm_compute; reflexivity. Qed.
+
+Example ex_terminal_local :
+  exists s log s1 e1 s2 e2, reach false s log /\ step s (UpMsg 0 0 KComplete) = Some (s1, e1)
+    /\ step s1 (ARLRemove 0) = Some (s2, e2)
+    /\ (exists x, cns s 0 = Some x /\ c_subs x = [(1, 1); (0, 0)])
+    /\ (exists x, cns s2 0 = Some x /\ c_subs x = [(1, 1)]).
+Proof.
+  do 6 eexists. split; [exists tr_two; vm_compute; reflexivity|].
+  split; [vm_compute; reflexivity|]. split; [vm_compute; reflexivity|].
+  split; eexists; split; vm_compute; reflexivity.
+Qed.
+
+Example ex_shared :
+  exists s log x, reach false s log /\ cns s 0 = Some x /\ In (0, 0) (c_subs x) /\ In (1, 1) (c_subs x)
+                  /\ okey s 0 = Kx /\ okey s 1 = Kx.
+Proof.
+  do 3 eexists. split; [exists tr_two; vm_compute; reflexivity|].
+  split; [vm_compute; reflexivity|]. simpl. repeat split; auto.
+Qed.
+
+Example ex_conns_drain :
+  exists s log x, reach false s log /\ quiescent s /\ cns s 0 = Some x /\ c_closed x = false /\ c_subs x = [(1, 1); (0, 0)].
+Proof.
+  do 3 eexists. split; [exists tr_two; vm_compute; reflexivity|].
+  split.
+  - intros a Ha. destruct a; try discriminate; simpl;
+      try (destruct i as [|[|i]]; reflexivity); try (destruct c as [|[|c]]; reflexivity).
+  - split; [vm_compute; reflexivity|]. split; reflexivity.
+Qed.
